@@ -5,11 +5,9 @@ package main
 // worker case that draws several points inside the cell.
 
 import (
-	"errors"
 	"fmt"
 	"math"
 	"math/rand/v2"
-	"net"
 	"net/http"
 	"runtime/debug"
 	"strconv"
@@ -182,11 +180,11 @@ func drawPoint(c policyCell, rng *rand.Rand) policyPoint {
 			p.RetryAfter = []string{"5", "100000"}[rng.IntN(2)] // only meaningful on 429
 		}
 	case "timeout":
-		p.Err = "timeout"
+		p.Err = "timeout:" + timeoutVariants[rng.IntN(len(timeoutVariants))]
 	case "final-status":
 		p.Status = []int{200, 201, 204, 301, 400, 401, 403, 404, 409, 416, 499}[rng.IntN(11)]
 	case "fatal-error":
-		p.Err = []string{"plain", "neterr"}[rng.IntN(2)]
+		p.Err = "fatal:" + fatalVariants[rng.IntN(len(fatalVariants))]
 	case "exhausted":
 		p.Status = []int{503, 429, 200}[rng.IntN(3)]
 		p.MaxRetry = p.Attempt - rng.IntN(3)
@@ -252,13 +250,10 @@ func evalPoint(p policyPoint, res *worker.Result) (paused bool) {
 	pol := &retry.GenericPolicy{Retryable: retry.DefaultPredicate, Backoff: backoff, MinWait: p.MinWait, MaxWait: p.MaxWait, MaxRetry: p.MaxRetry}
 	var resp *http.Response
 	var rerr error
-	switch p.Err {
-	case "timeout":
-		rerr = &timeoutErr{1}
-	case "plain":
-		rerr = errors.New("scripted failure")
-	case "neterr":
-		rerr = &net.OpError{Op: "read", Err: errors.New("connection reset")}
+	errKind, errVariant, _ := strings.Cut(p.Err, ":")
+	switch errKind {
+	case "timeout", "fatal":
+		rerr = mkErr(errKind, errVariant, 1)
 	default:
 		resp = &http.Response{StatusCode: p.Status, Header: http.Header{}}
 		if p.RetryAfter != "" {
@@ -275,7 +270,7 @@ func evalPoint(p policyPoint, res *worker.Result) (paused bool) {
 	retryable := false
 	switch {
 	case rerr != nil:
-		retryable = p.Err == "timeout"
+		retryable = errKind == "timeout"
 	default:
 		retryable = p.Status == 408 || p.Status == 429 || p.Status >= 500
 	}
@@ -292,6 +287,9 @@ func evalPoint(p policyPoint, res *worker.Result) (paused bool) {
 		if d >= 0 {
 			res.Violate("policy-retries-non-retryable", fmt.Sprintf("Retry on a non-retryable outcome (status %d err %q) asks for another attempt (pause %v)", p.Status, p.Err, d), w)
 		}
+	case rerr != nil && !timeoutIsNetError(errVariant) && d < 0:
+		// a timeout visible only through errors.As: declining to retry is fine
+		res.Count("policy_wrapped_timeout_declined", 1)
 	default:
 		paused = true
 		res.Count("policy_pauses_checked", 1)
